@@ -36,4 +36,7 @@ def containsL : List Char → List Char → Bool
 def contains (hay needle : String) : Bool := containsL hay.toList needle.toList
 def startsWith (s p : String) : Bool := p.toList.isPrefixOf s.toList
 
+/-- `str(n)` / `f'{n}'` of a Python int -/
+def strOfInt (n : Int) : String := toString n
+
 end Py
